@@ -15,5 +15,5 @@ check('C04', 'proof',
       'Trusted: Coq kernel+VM, harness generators/canonicalisation, the hand-written kernel models (tied by correspondence only, no '
       'translator).  Not modelled in Coq: BLAS merge of iadd_prefactor_other and the four workers.  Memory layout and the effect of in-place '
       'writes on shallow copies (unspecified by Array.copy) are not part of the observation.  Eight genuine differences of the unchanged '
-      'tree are recorded in KNOWN_FINDINGS.json (F5-C04, F51-C04, F60..F63-C04, F42-C04a/b).',
+      'tree were found and are recorded in KNOWN_FINDINGS.json (known: F51-C04, F60-C04, F61-C04, F63-C04, F42-C04a/b; F5-C04 and F62-C04 have since been fixed in /repo and are regression-checked).',
       'Coq proof over all inputs for 5 kernels + two-sided correspondence + differential execution of both configurations', '5.C04')
